@@ -21,6 +21,7 @@ def run(ctx):
     rj = ctx.validate(fam, "Semap_Trace", "Semap_Trace.cfg", steps, label="steps", chunk=20000)
     rj += ctx.validate(fam, "Semap_Trace", "Semap_Trace.cfg", stress, label="stress", chunk=20000)
     ctx.judge(rj)
+    ctx.extra["branch_coverage"] = branch_coverage(steps)
     ctx.extra["plans"] = len(plans)
     ctx.extra["step_traces"] = len(steps)
     ctx.extra["stress_traces"] = len(stress)
@@ -33,3 +34,33 @@ def run(ctx):
              "(3..6 procs, 1..3 keys, ratio 1,2,3,10); variants single/wide/xhash, shards 1,2,7,73",
         explanation="every step: worker statuses (hold/parked/gate/idle) and (present,cur,waiters) per key "
                     "from the verif accessors must equal the successor state of Semap.tla")
+
+
+def branch_coverage(traces):
+    """How often the rare branches of the code were really taken in the recorded executions."""
+    c = {"steps": 0, "acquire_parked": 0, "release_grants_waiters": 0, "cancel_resolved_as_granted": 0,
+         "cancel_of_head_grants_others": 0, "acquire_with_ended_context": 0, "entry_deleted": 0}
+    for tr in traces:
+        prev = None
+        for e in tr:
+            if e.get("ev") != "step":
+                continue
+            a, st = e["a"], e["st"]
+            c["steps"] += 1
+            me = a["p"] - 1
+            if a["op"] in ("acq", "acqc") and st[me] == "parked":
+                c["acquire_parked"] += 1
+            if a["op"] == "acqc":
+                c["acquire_with_ended_context"] += 1
+            if prev is not None:
+                newhold = [i for i, (x, y) in enumerate(zip(prev["st"], st)) if y == "hold" and x != "hold" and i != me]
+                if a["op"] == "rel" and newhold:
+                    c["release_grants_waiters"] += 1
+                if a["op"] in ("cancel", "cresolve") and newhold:
+                    c["cancel_of_head_grants_others"] += 1
+                if e["entries"] < prev["entries"]:
+                    c["entry_deleted"] += 1
+            if a["op"] == "cresolve" and st[me] == "hold":
+                c["cancel_resolved_as_granted"] += 1
+            prev = e
+    return c
